@@ -117,6 +117,10 @@ func c19Gen(t *rapid.T, cx *h.Ctx) C19Case {
 	if rapid.IntRange(0, 5).Draw(t, "defaultcentre") == 0 {
 		c.Lon0, c.Lat0 = 0, 0
 	}
+	// polar aspects (centre exactly on a pole) and near-polar centres for the azimuthal projections
+	if (c.Proj == "azimuthal" || c.Proj == "orthographic") && rapid.IntRange(0, 5).Draw(t, "polar") == 0 {
+		c.Lat0 = rapid.SampledFrom([]float64{90, -90, 89.5, -89.5, 85, -85}).Draw(t, "polelat")
+	}
 	// standard parallels: both hemispheres and orders, not symmetric (cone constant 0), not equal
 	for {
 		c.P1 = float64(rapid.IntRange(-75, 75).Draw(t, "p1"))
@@ -163,6 +167,9 @@ func c19Gen(t *rapid.T, cx *h.Ctx) C19Case {
 
 // c19InDomain: the well-conditioned one-to-one domain of each implementation.
 func c19InDomain(c C19Case, n, lon, lat float64) bool {
+	if (c.Proj == "azimuthal" || c.Proj == "orthographic") && lon == c.Lon0 && lat == c.Lat0 {
+		return true // the centre itself, also when it is a pole
+	}
 	if math.Abs(lat) > 85 {
 		return false
 	}
@@ -204,12 +211,23 @@ func c19Check(c C19Case, cx *h.Ctx) *h.Failure {
 		back := p.Reverse(f)
 		dlon := math.Mod(back.X-lon+540, 360) - 180
 		dlat := back.Y - lat
+		atPole := math.Abs(lat) == 90
+		if atPole {
+			dlon = 0 // every longitude names the pole
+		}
 		if !(math.Abs(dlon) <= 1e-9) || !(math.Abs(dlat) <= 1e-9) {
 			cls := "proj/roundtrip"
 			if lon == c.Lon0 && lat == c.Lat0 {
 				cls = "proj/roundtrip-at-centre"
 			}
 			return h.Failf(cls+":"+c.Proj, "Reverse(Forward(%v %v)) = (%v %v): off by (%g, %g) degrees%s", lon, lat, back.X, back.Y, dlon, dlat, desc())
+		}
+		if atPole {
+			if math.Hypot(f.X, f.Y) > 1e-9*R {
+				return h.Failf("proj/centre-not-origin:"+c.Proj, "Forward of the polar centre (%v %v) = (%g %g), want (0 0)%s", lon, lat, f.X, f.Y, desc())
+			}
+			cx.Class("at-polar-centre")
+			continue // no Jacobian in lon/lat at a pole
 		}
 		// Jacobian by central differences (per radian)
 		hd := 1e-4 // degrees: large enough that rounding in x,y (cancellation in conics with a small cone constant) stays below 1e-8 relative
@@ -324,7 +342,7 @@ func c19Enumerate(cx *h.Ctx, yield func(C19Case)) []string {
 func TestC19(t *testing.T) {
 	h.Run(t, h.Prop[C19Case]{
 		ID:          "C19",
-		Rule:        "cases = one of the 9 carto projections with a drawn configuration (centre/origin over the sphere incl. the default, standard parallels in both hemispheres and orders with |p1-p2| >= 5 and |p1+p2| >= 10 degrees, radius 1 / WGS84 mean / WGS84 equatorial / 6371, zoom 0..30) and 4..16 points: the centre/origin itself, points on the standard parallels, graticule points and random points, restricted to the well-conditioned domain (|lat| <= 85, within 60 degrees of arc for azimuthal/orthographic, |n x dlon| < 89 degrees for conics); plus the enumerated graticule (5-degree in quick, 1-degree in thorough) for 5 fixed configurations. Checks: Forward finite; Reverse(Forward(p)) within 1e-9 degrees (a NaN fails); Jacobian by central differences at 1e-4 degrees: equal-area det J = R^2 cos(lat) (Albers, Lambert cylindrical, sinusoidal), conformal J^T J = s^2 diag(cos^2 lat, 1) (Lambert conformal conic, web Mercator), azimuthal |Forward(p)| = R x great-circle angle, meridian scale 1 (equidistant conic, equirectangular), standard parallels true to scale, web Mercator world -> [0,2^zoom]^2, centre, y southward; relative tolerance 1e-6 on Jacobians. non-trivial = non-default centre/origin and a point >= 1 degree away",
+		Rule:        "cases = one of the 9 carto projections with a drawn configuration (centre/origin over the sphere incl. the default and, for the two azimuthal projections, exactly and nearly polar centres, standard parallels in both hemispheres and orders with |p1-p2| >= 5 and |p1+p2| >= 10 degrees, radius 1 / WGS84 mean / WGS84 equatorial / 6371, zoom 0..30) and 4..16 points: the centre/origin itself, points on the standard parallels, graticule points and random points, restricted to the well-conditioned domain (|lat| <= 85, within 60 degrees of arc for azimuthal/orthographic, |n x dlon| < 89 degrees for conics); plus the enumerated graticule (5-degree in quick, 1-degree in thorough) for 5 fixed configurations. Checks: Forward finite; Reverse(Forward(p)) within 1e-9 degrees (a NaN fails); Jacobian by central differences at 1e-4 degrees: equal-area det J = R^2 cos(lat) (Albers, Lambert cylindrical, sinusoidal), conformal J^T J = s^2 diag(cos^2 lat, 1) (Lambert conformal conic, web Mercator), azimuthal |Forward(p)| = R x great-circle angle, meridian scale 1 (equidistant conic, equirectangular), standard parallels true to scale, web Mercator world -> [0,2^zoom]^2, centre, y southward; relative tolerance 1e-6 on Jacobians. non-trivial = non-default centre/origin and a point >= 1 degree away",
 		Assumptions: []string{"math package accuracy", "singular configurations (equal or symmetric standard parallels, cos(p1) = 0) are excluded"},
 		Gen:         c19Gen,
 		Check:       c19Check,
